@@ -55,6 +55,16 @@ def run(ctx):
             ctx.broke("correspondence", "E-CONC lock-step bq mode=%s seed=%d env=%s" % (r["mode"], r["seed"], r["env"]), "%s\n%s" % (r["replay"], r["text"]))
         if not samples and f["sleep"] and f["woken"] and 40 < len(r["lines"]) < 160:
             samples.append(r["lines"][:80])
+    vruns, vdist = view_pass(ctx, "C02", 300, 3000)
+    for r in vruns:
+        if r["verdict"] != "ok":
+            ctx.failing_input("view-verdict:%s:%s" % (r["mode"], r["verdict"].split()[0]), r["text"] + "\n" + r.get("stderr", ""))
+        elif r["oracle"]:
+            vdist["oracle"] += 1
+            ctx.failing_input("view-oracle:%s:%s" % (r["mode"], oracle_kind(r)), r["text"])
+        elif r["races"]:
+            ctx.failing_input("view-race:%s" % r["mode"], r["text"])
+    dist["view_mode"] = vdist
     ctx.cov["distribution"] = dist
     ctx.cov["distinct_nontrivial"] = len(distinct)
     ctx.cov["traces_validated_against_impl"] = dist.get("replay_ok", 0)
